@@ -27,9 +27,35 @@ func init() {
 		if len(args) == 0 {
 			args = []string{"./p"}
 		}
-		_, v := c09Oracle(ctx, dir, in.Versions[0], args, &Plan{MapMode: "identity"}, world.NegSnippet{})
+		s := world.NegSnippet{}
+		if in.MustReject {
+			s.Kind = "chanfunc" // the input holds a constituent outside the plugin's supported set: exit 0 is a violation
+		}
+		_, v := c09Oracle(ctx, dir, in.Versions[0], args, &Plan{MapMode: "identity"}, s)
 		return v
 	}
+}
+
+// mustReject: the kinds of the snippet table whose constituent is outside the
+// addressed plugin's supported set (the others are unusual but supported
+// shapes, accepted or rejected at goderive's discretion).
+var mustReject = map[string]bool{"chanfunc": true, "iface": true, "field": true, "nonfunc": true, "arity": true, "mismatch": true}
+
+// callSiteError: a type error of the compiler that names a derive-prefixed
+// function as the callee whose parameters or results do not fit.
+func callSiteError(e string) bool {
+	for _, marker := range []string{"in argument to ", "in call to ", "arguments in call to "} {
+		if i := strings.Index(e, marker); i >= 0 {
+			name := e[i+len(marker):]
+			if j := strings.IndexAny(name, " \n(:,"); j >= 0 {
+				name = name[:j]
+			}
+			if derivePrefixed(name) {
+				return true
+			}
+		}
+	}
+	return false
 }
 
 func derivePrefixed(name string) bool {
@@ -73,6 +99,10 @@ func c09Oracle(ctx *genCtx, dir string, files map[string]string, args []string, 
 				} else {
 					theirs = append(theirs, e)
 				}
+			case callSiteError(e):
+				// the error sits in the user's file but is about what a derive call takes or returns:
+				// goderive accepted the call and generated a function that does not fit it
+				ours = append(ours, e)
 			default:
 				theirs = append(theirs, e)
 			}
@@ -80,6 +110,10 @@ func c09Oracle(ctx *genCtx, dir string, files map[string]string, args []string, 
 		if len(ours) > 0 && len(theirs) == 0 {
 			facts["typeerrors"] = strings.Join(ours, "\n")
 			return r, &genViolation{Clause: "exit0-bad-file", Detail: fmt.Sprintf("[%s %s %s] goderive exits 0 but the package does not type-check because of the generated code: %s", s.Kind, s.Call, s.Type, strings.Join(ours, " | ")), Facts: facts}
+		}
+		if mustReject[s.Kind] && !strings.Contains(s.Type, "unsafe.Pointer") && len(theirs) == 0 {
+			// "an argument type outside a plugin's supported set is always reported that way"
+			return r, &genViolation{Clause: "unsupported-accepted", Detail: fmt.Sprintf("[%s %s %s] goderive exits 0 without a message for a call the plugin does not support", s.Kind, s.Call, s.Type), Facts: facts}
 		}
 		return r, nil
 	}
